@@ -65,6 +65,7 @@ func Family(tier string, extraLens []int) []tmpl.Env {
 		}
 	}
 	shapes := methodShapes(maxP, maxR)
+	var envs0 []tmpl.Env
 	var mockLists [][]tmpl.MockShape
 	one := func(m tmpl.MockShape) { mockLists = append(mockLists, []tmpl.MockShape{m}) }
 	one(tmpl.MockShape{})
@@ -86,11 +87,17 @@ func Family(tier string, extraLens []int) []tmpl.Env {
 		[]tmpl.MockShape{{}, {Methods: []tmpl.MethodShape{big}}},
 		[]tmpl.MockShape{{Methods: []tmpl.MethodShape{{NParams: 1, NResults: 1}}}, {TypeParams: []tmpl.TPShape{{}}, Methods: []tmpl.MethodShape{nul, big}}},
 		[]tmpl.MockShape{{}, {}},
+		[]tmpl.MockShape{{Methods: []tmpl.MethodShape{big}}, {}},
 		// name pairs "Iface:Name", and the same interface requested twice under two names
 		[]tmpl.MockShape{{Aliased: true, Methods: []tmpl.MethodShape{{NParams: 1, NResults: 1}}}, {Methods: []tmpl.MethodShape{nul}}},
 		[]tmpl.MockShape{{Aliased: true, Methods: []tmpl.MethodShape{big}}, {Aliased: true, DupOfFirst: true}},
 		[]tmpl.MockShape{{Aliased: true, Methods: []tmpl.MethodShape{nul}}, {Methods: []tmpl.MethodShape{big}}, {DupOfFirst: true}},
 	)
+	// "Iface:Iface" — the mock is to carry the interface's own name (only sensible in another package)
+	for bits := 0; bits < 8; bits++ {
+		envs0 = append(envs0, tmpl.Env{Stub: bits&1 != 0, SkipEnsure: bits&2 != 0, WithResets: bits&4 != 0, External: true,
+			Mocks: []tmpl.MockShape{{Aliased: true, SameName: true, Methods: []tmpl.MethodShape{{NParams: 1, NResults: 1}}}, {Methods: []tmpl.MethodShape{nul}}}})
+	}
 	if tier == "thorough" {
 		three := []tmpl.MethodShape{{NParams: 3, NResults: 1}, nul, {NParams: 1, Variadic: true, NResults: 3}}
 		one(tmpl.MockShape{Methods: three})
@@ -104,7 +111,7 @@ func Family(tier string, extraLens []int) []tmpl.Env {
 			}
 		}
 	}
-	var envs []tmpl.Env
+	envs := envs0
 	for _, ml := range mockLists {
 		for bits := 0; bits < 16; bits++ {
 			e := tmpl.Env{Stub: bits&1 != 0, SkipEnsure: bits&2 != 0, WithResets: bits&4 != 0, External: bits&8 != 0, Mocks: ml}
